@@ -124,19 +124,28 @@ Proof.
   eapply forallb_forall in G3; [|exact Hp]. rewrite diverge_sym. exact G3.
 Qed.
 
+(* the result of the addition may be any value v2 (C01 gives t2 up to dict / set order) *)
+Theorem diff_inplace_sub_inverts_gen ro ao v2 :
+  ro [] = [] -> wf t2 = true ->
+  indep_verified d = true ->
+  (forall e, In e es -> ntp t1 (npath (ep1 e))) ->
+  apply conv ro ao d t1 = (v2, 0) ->
+  sub conv ro ao d v2 = Some (t1, 0).
+Proof.
+  intros Hro W2 G N A.
+  apply (inplace_sub_inverts conv ro ao Hro d t1 v2 inplace_of_entries eq_refl (writes_paths_div G)); [|exact A].
+  intros w Hw. destruct (writes_of_entries w Hw) as (e & a & b & He & E1 & E2 & R1 & R2 & ->).
+  cbn [wpath fst snd]. unfold npath. rewrite resolve_norm. split; [exact R1|]. split.
+  - eapply wf_resolve; eassumption.
+  - apply N. exact He.
+Qed.
+
 Theorem diff_inplace_sub_inverts ro ao :
   ro [] = [] -> wf t2 = true ->
   indep_verified d = true ->
   (forall e, In e es -> ntp t1 (npath (ep1 e))) ->
   apply conv ro ao d t1 = (t2, 0) ->
   sub conv ro ao d t2 = Some (t1, 0).
-Proof.
-  intros Hro W2 G N A.
-  apply (inplace_sub_inverts conv ro ao Hro d t1 t2 inplace_of_entries eq_refl (writes_paths_div G)); [|exact A].
-  intros w Hw. destruct (writes_of_entries w Hw) as (e & a & b & He & E1 & E2 & R1 & R2 & ->).
-  cbn [wpath fst snd]. unfold npath. rewrite resolve_norm. split; [exact R1|]. split.
-  - eapply wf_resolve; eassumption.
-  - apply N. exact He.
-Qed.
+Proof. apply diff_inplace_sub_inverts_gen. Qed.
 
 End OfDiff.
